@@ -306,6 +306,22 @@ pub fn c15(ctx: &mut Ctx) {
         let body: Vec<u8> = s.iter().flat_map(|&i| bw[i as usize].to_be_bytes()).collect();
         home_case(l, F::Nack, &body, idx);
     });
+    // NACK word lists whose words expand to different numbers of entries (1, 2, 9, 9, 16, 17): every list of up to 5
+    // words, and every list of 6..=8 words over {16 entries, 17 entries} - running totals of every kind
+    let masks: [u16; 6] = [0x0000, 0x0001, 0x00FF, 0x5555, 0x7FFF, 0xFFFF];
+    let n5 = seq_count(6, 5);
+    ctx.bound("NACK word lists", "all lists of <= 5 words over masks {0000,0001,00FF,5555,7FFF,FFFF}; all lists of 6..=8 words over {7FFF,FFFF}");
+    ctx.run_space("nack-word-lists-by-entry-count", n5 + (64 + 128 + 256), move |idx, l| {
+        let seq: Vec<u64> = if idx < n5 {
+            seq_decode(6, idx)
+        } else {
+            let k = idx - n5;
+            let (len, r) = if k < 64 { (6, k) } else if k < 192 { (7, k - 64) } else { (8, k - 192) };
+            (0..len).map(|i| 4 + ((r >> i) & 1)).collect()
+        };
+        let body: Vec<u8> = seq.iter().enumerate().flat_map(|(i, &m)| ((((0x0400 + 0x40 * i as u32) & 0xFFFF) << 16) | masks[m as usize] as u32).to_be_bytes()).collect();
+        home_case(l, F::Nack, &body, idx);
+    });
     // SLI single words
     if thorough {
         ctx.run_space("sli-all-words", 1u64 << 32, |idx, l| {
